@@ -56,6 +56,7 @@ structure Entry where
 metadata (memory and file caches) or replace the whole record (SQL with delete-before-insert). -/
 structure World where
   cache : List (Str × Entry) := []
+  enabled : Bool := true               -- `false`: the global cache is `NoCache()`
   metaKeepsData : Bool := true
   calls : List Str := []               -- call log, most recent last
   deriving Repr, Inhabited
@@ -69,6 +70,7 @@ def World.get (w : World) (k : Str) : Option EState :=
   | _ => none
 
 def World.put (w : World) (k : Str) (e : Entry) : World :=
+  if !w.enabled then w else
   { w with cache := (k, e) :: w.cache.filter (fun x => x.1 != k) }
 
 /-- `cache.store_metadata(metadata)` -/
